@@ -159,3 +159,31 @@ package store
 //@   ghost update @s.tryCompress: cc = result1
 //@   assert @s.tryCompress: [same-request] arg0 == ex
 //@   assert @command.Marshal: [command-shape] arg0 != nil && arg0.Type == proto.Command_COMMAND_TYPE_EXECUTE && arg0.SubCommand == cb && arg0.Compressed == cc
+//
+// ---- C37: the backup provider ------------------------------------------------------------------
+// Provide returns nil iff some Backup attempt returned nil; before each attempt the destination is
+// rewound; it gives up with the last error after nRetries+1 failures.
+//@ type Provider
+//@   stable str, vacuum, compress, nRetries, retryInterval
+//@   stable_set_in NewProvider
+//
+//@ func (*Provider) Provide
+//@   requires [recv] p != nil && p.nRetries >= 0
+//@   ghost var lastBackupErr error = nil
+//@   ghost var attempts int = 0
+//@   ghost var rewound bool = false
+//@   ghost var seekErr error = nil
+//@   ghost update @w.Seek: rewound = (result1 == nil && arg0 == 0 && arg1 == io.SeekStart)
+//@   ghost update @w.Seek: seekErr = result1
+//@   assert @p.str.Backup: [rewound-before-attempt] rewound && arg2 == w
+//@   ghost update @p.str.Backup: lastBackupErr = result
+//@   ghost update @p.str.Backup: attempts = attempts + 1
+//@   ghost update @p.str.Backup: rewound = false
+//@   loop 1 invariant [count] attempts == nRetries && nRetries >= 0 && nRetries <= p.nRetries && !rewound
+//@   ensures [nil-iff-backup-ok] retErr == nil ==> (attempts >= 1 && lastBackupErr == nil)
+//@   ensures [gives-up-after] (retErr != nil && seekErr == nil) ==> (attempts >= 1 && retErr == lastBackupErr && attempts == p.nRetries + 1)
+//@   ensures [seek-error] seekErr != nil ==> retErr == seekErr
+//
+//@ func (*Provider) LastIndex
+//@   requires [recv] p != nil
+//@   ensures [no-error] result1 == nil
